@@ -127,6 +127,13 @@ impl StoreEnv {
     }
 
     pub fn cache_path(&self, thread: &str, file: &str) -> Option<PathBuf> {
+        // the thread index (rebuildable) and the truth log itself (only as the leftover of a crash / an earlier failed append)
+        if file == "index" {
+            return Some(self.data.join("continuities").join("index.json"));
+        }
+        if file == "log" {
+            return Some(log_path(&self.data));
+        }
         CACHE_FILES
             .iter()
             .find(|(n, _)| *n == file)
@@ -1022,6 +1029,13 @@ impl StoreEnv {
                 fs::write(&p, b"\x00\xffnot json at all{{{\n\x01\x02garbage\n").is_ok()
             }
             "empty" => p.exists() && fs::write(&p, b"").is_ok(),
+            "append_gap" => {
+                // a whole, well-formed frame of another stream whose seq leaves a gap (what an earlier failed session
+                // append leaves behind): validated replay of the store fails from here on
+                use std::io::Write;
+                let line = "{\"id\":\"gap-e9\",\"reason\":\"completed\",\"seq\":3,\"session_id\":\"gap-session\",\"stream_id\":\"gap-session\",\"stream_kind\":\"session\",\"timestamp_ms\":2,\"type\":\"session_ended\"}\n";
+                fs::OpenOptions::new().append(true).open(&p).and_then(|mut f| f.write_all(line.as_bytes())).is_ok()
+            }
             "rollback" => {
                 let key = format!("{t}-{file}");
                 let saved = self.ids.lock().unwrap().saved.get(&key).cloned();
